@@ -468,6 +468,26 @@ func c04Run(w *W) {
 				q.replied = rb
 				q.done, q.doneAt, q.doneWhy = true, w.Now(), "reply"
 			}
+		case kind == 8 && !b.bounded:
+			// the retry time is set again to the value it has (on the context
+			// or, for the default context, on the socket): nothing changes for
+			// the request outstanding - no transmission now, the next one when
+			// it was due anyway
+			if c.closed {
+				continue
+			}
+			var err error
+			if c.c != nil {
+				err = c.c.SetOption(mangos.OptionRetryTime, R)
+			} else {
+				err = b.s.SetOption(mangos.OptionRetryTime, R)
+			}
+			if err != nil {
+				w.Failf("C19/retrytime-rejected", "SetOption(RetryTime, %v): %v", R, err)
+				return
+			}
+			w.Op("ctx%d SetOption(RetryTime, %v) again", c.idx, R)
+			w.Probe("retry-time-set-again-while-outstanding")
 		case kind == 8: // stalled peer frees one slot (bounded mode)
 			if !b.bounded {
 				continue
